@@ -1,10 +1,14 @@
 ---- MODULE Processor ----
 (* addons/processors/{skeleton,sql-processor,iceberg-processor}/internal/processor/processor.go *)
-(* The polling loop `Run` for the one partition whose lease the worker holds: every tick it      *)
-(* lists the completed segments and, per segment in list order, LoadOffset -> Decode ->          *)
-(* filterRecords(offset > loaded) -> [iceberg: LFS resolve per record] -> sink.Write ->          *)
-(* CommitOffset(last written).  One action per external call (= one call on a harness fake).     *)
-(* Every call may fail transiently (budget MaxFaults).                                           *)
+(* The polling loop `Run` of one worker over two partitions.  Every tick it lists the completed  *)
+(* segments; without a lease it tries ClaimLease partition by partition (list order) and pins    *)
+(* itself to the first one granted; then, per segment of the leased partition in list order,     *)
+(* LoadOffset -> Decode -> filterRecords(offset > loaded) -> [iceberg: LFS resolve per record]   *)
+(* -> sink.Write -> CommitOffset(last written).  A failed lease renewal (goroutine, every 10 s = *)
+(* every second tick after the claim) makes the loop release the lease; the next tick claims     *)
+(* again, possibly another partition.  One action per external call (= one call on a harness     *)
+(* fake).  Every call may fail transiently (budget MaxFaults); a segment download may also be    *)
+(* cut short in the middle of the body ("trunc").                                                *)
 EXTENDS Integers, Sequences, FiniteSets, TLC, Json
 CONSTANTS MaxCycles, MaxFaults,
           Stores,           \* subset of {"noop","etcd"}: noop = the module's placeholder store (persists nothing,
@@ -12,57 +16,106 @@ CONSTANTS MaxCycles, MaxFaults,
           HasLfs,           \* TRUE: iceberg processor (every record value is an LFS envelope resolved with one worker)
           FixBreakOnError,  \* TRUE: a failed step ends the cycle (repaired); FALSE: `continue` with the next segment
           FixSentinel,      \* TRUE: noop LoadOffset returns -1 (repaired); FALSE: returns 0 = "offset 0 is done"
-          FixLfsFail        \* TRUE: an unresolved LFS blob fails the segment (repaired); FALSE: the record is dropped
-SegOffsets == <<{0, 1}, {2}, {3}>>
-NSeg == Len(SegOffsets)
-AllOffsets == UNION {SegOffsets[i] : i \in 1..NSeg}
+          FixLfsFail,       \* TRUE: an unresolved LFS blob fails the segment (repaired); FALSE: the record is dropped
+          DevStaleCache,    \* deviation: LoadOffset once, then a local copy updated on commit - not keyed by partition,
+                            \* not reset when the lease is lost
+          DevTruncAccepted  \* deviation: a download cut short is decoded as if complete (leading records only, no error)
+Parts == {0, 1}
+SegList == << [p |-> 0, offs |-> {0, 1}], [p |-> 0, offs |-> {2}], [p |-> 0, offs |-> {3}],
+              [p |-> 1, offs |-> {0}], [p |-> 1, offs |-> {5}] >>
+NSeg == Len(SegList)
+AllOf(p) == UNION {SegList[i].offs : i \in {j \in 1..NSeg : SegList[j].p = p}}
 Min(S) == CHOOSE x \in S : \A y \in S : x <= y
 Max(S) == CHOOSE x \in S : \A y \in S : x >= y
+None == -2   \* "no value" for the deviation's local checkpoint copy
 
 VARIABLES store, cyc, pc, idx, loaded, recs, lfsTodo, lfsBad,
-          ckpt,     \* the checkpoint: offset of the last CommitOffset the store accepted (-1 = none)
-          persist,  \* what the store really keeps and LoadOffset returns (etcd only; the placeholder keeps nothing)
-          sink, nf, cycFaults, cleanDone, hist
-vars == <<store, cyc, pc, idx, loaded, recs, lfsTodo, lfsBad, ckpt, persist, sink, nf, cycFaults, cleanDone, hist>>
+          lease,     \* partition the worker is pinned to, -1 = no lease
+          claimCyc,  \* cycle in which the current lease was claimed (the renewal ticker starts then)
+          claimTodo, \* partitions still to try in this cycle's claim loop
+          ckpt,      \* per partition: offset of the last CommitOffset the store accepted (-1 = none)
+          persist,   \* per partition: what the store really keeps and LoadOffset returns (etcd only)
+          sink,      \* per partition: offsets successfully written
+          cached,    \* DevStaleCache only: the local copy of the checkpoint
+          nf, cycFaults, cleanDone, hist
+vars == <<store, cyc, pc, idx, loaded, recs, lfsTodo, lfsBad, lease, claimCyc, claimTodo, ckpt, persist, sink, cached,
+          nf, cycFaults, cleanDone, hist>>
+loopv == <<loaded, recs, lfsTodo, lfsBad>>          \* per-segment scratch
+stv == <<ckpt, persist, sink>>                      \* store and sink
+lsv == <<lease, claimCyc, claimTodo>>               \* lease
 
 Init == /\ store \in Stores /\ cyc = 0 /\ pc = "idle" /\ idx = 0 /\ loaded = -1 /\ recs = {} /\ lfsTodo = {}
-        /\ lfsBad = FALSE /\ ckpt = -1 /\ persist = -1 /\ sink = {} /\ nf = 0 /\ cycFaults = 0 /\ cleanDone = FALSE /\ hist = <<>>
+        /\ lfsBad = FALSE /\ lease = -1 /\ claimCyc = 0 /\ claimTodo = <<>>
+        /\ ckpt = [p \in Parts |-> -1] /\ persist = [p \in Parts |-> -1] /\ sink = [p \in Parts |-> {}]
+        /\ cached = None /\ nf = 0 /\ cycFaults = 0 /\ cleanDone = {} /\ hist = <<>>
 
 Bump(ok) == /\ (ok \/ nf < MaxFaults)
             /\ nf' = IF ok THEN nf ELSE nf + 1
             /\ cycFaults' = IF ok THEN cycFaults ELSE cycFaults + 1
-\* the segment loop ran off its end (or was left): the select loop waits for the next tick
-Finish == pc' = "idle" /\ idx' = 0 /\ cleanDone' = (cleanDone \/ cycFaults' = 0)
-NextSeg == IF idx < NSeg THEN pc' = "load" /\ idx' = idx + 1 /\ UNCHANGED cleanDone ELSE Finish
-OnError == IF FixBreakOnError THEN Finish ELSE NextSeg
+SegsOf(p) == {j \in 1..NSeg : SegList[j].p = p}
+\* the segment loop ran off its end (or was left) while pinned to partition p: the select loop waits for the next tick
+Finish(p) == pc' = "idle" /\ idx' = 0 /\ cleanDone' = (IF cycFaults' = 0 /\ p # -1 THEN cleanDone \cup {p} ELSE cleanDone)
+Enter(p, after) == LET later == {j \in SegsOf(p) : j > after} IN
+                   IF later = {} THEN Finish(p) ELSE pc' = "load" /\ idx' = Min(later) /\ UNCHANGED cleanDone
+NextSeg == Enter(lease, idx)
+OnError == IF FixBreakOnError THEN Finish(lease) ELSE NextSeg
 Log(r) == hist' = Append(hist, r)
-LoadValue == IF store = "noop" THEN (IF FixSentinel THEN -1 ELSE 0) ELSE persist
+LoadValue == IF store = "noop" THEN (IF FixSentinel THEN -1 ELSE 0) ELSE persist[lease]
 
 List(ok) ==
   /\ pc = "idle" /\ cyc < MaxCycles /\ (ok \/ nf < MaxFaults)
   /\ cyc' = cyc + 1 /\ nf' = (IF ok THEN nf ELSE nf + 1) /\ cycFaults' = (IF ok THEN 0 ELSE 1)
-  /\ IF ok THEN pc' = "load" /\ idx' = 1 ELSE pc' = "idle" /\ idx' = 0
+  /\ IF ~ok THEN pc' = "idle" /\ idx' = 0 /\ UNCHANGED <<cleanDone, claimTodo>>
+     ELSE IF lease = -1 THEN pc' = "claim" /\ idx' = 0 /\ claimTodo' = <<0, 1>> /\ UNCHANGED cleanDone
+     ELSE Enter(lease, 0) /\ UNCHANGED claimTodo
   /\ Log([a |-> "List", c |-> cyc', seg |-> 0, ok |-> ok])
-  /\ UNCHANGED <<store, loaded, recs, lfsTodo, lfsBad, ckpt, persist, sink, cleanDone>>
+  /\ UNCHANGED <<store, loopv, lease, claimCyc, stv, cached>>
+
+\* ClaimLease for the next partition of the list (the code asks once per listed segment; same answer within a cycle)
+Claim(ok) ==
+  /\ pc = "claim" /\ claimTodo # <<>> /\ Bump(ok)
+  /\ LET p == Head(claimTodo) IN
+     /\ IF ok THEN lease' = p /\ claimCyc' = cyc /\ claimTodo' = <<>> /\ Enter(p, 0)
+        ELSE /\ claimTodo' = Tail(claimTodo) /\ UNCHANGED <<lease, claimCyc>>
+             /\ IF Tail(claimTodo) = <<>> THEN Finish(-1) ELSE UNCHANGED <<pc, idx, cleanDone>>
+     /\ Log([a |-> "Claim", c |-> cyc, seg |-> 0, p |-> p, ok |-> ok])
+  /\ UNCHANGED <<store, cyc, loopv, stv, cached>>
+
+\* the j-th renewal after the claim fires at tick claimCyc + 2j; its failure reaches the loop before the next tick
+Lose ==
+  /\ pc = "idle" /\ lease # -1 /\ cyc < MaxCycles /\ nf < MaxFaults
+  /\ cyc - claimCyc >= 2 /\ (cyc - claimCyc) % 2 = 0
+  /\ lease' = -1 /\ nf' = nf + 1
+  /\ Log([a |-> "Lose", c |-> cyc, seg |-> 0, ok |-> FALSE])
+  /\ UNCHANGED <<store, cyc, pc, idx, loopv, claimCyc, claimTodo, stv, cached, cycFaults, cleanDone>>
 
 Load(ok) ==
-  /\ pc = "load" /\ Bump(ok)
-  /\ IF ok THEN loaded' = LoadValue /\ pc' = "decode" /\ UNCHANGED <<idx, cleanDone>>
-           ELSE OnError /\ UNCHANGED loaded
+  /\ pc = "load" /\ (DevStaleCache => cached = None) /\ Bump(ok)
+  /\ IF ok THEN /\ loaded' = LoadValue /\ pc' = "decode" /\ UNCHANGED <<idx, cleanDone>>
+                /\ cached' = IF DevStaleCache THEN LoadValue ELSE cached
+           ELSE OnError /\ UNCHANGED <<loaded, cached>>
   /\ Log([a |-> "Load", c |-> cyc, seg |-> idx, ok |-> ok])
-  /\ UNCHANGED <<store, cyc, recs, lfsTodo, lfsBad, ckpt, persist, sink>>
+  /\ UNCHANGED <<store, cyc, recs, lfsTodo, lfsBad, lsv, stv>>
+\* deviation only: no store call, the local copy is used (silent step)
+LoadCached ==
+  /\ pc = "load" /\ DevStaleCache /\ cached # None
+  /\ loaded' = cached /\ pc' = "decode"
+  /\ UNCHANGED <<store, cyc, idx, recs, lfsTodo, lfsBad, lsv, stv, cached, nf, cycFaults, cleanDone, hist>>
 
-Decode(ok) ==
-  /\ pc = "decode" /\ Bump(ok)
-  /\ IF ok
-     THEN LET r == {o \in SegOffsets[idx] : o > loaded} IN
-          /\ recs' = r /\ lfsBad' = FALSE
-          /\ IF r = {} THEN NextSeg /\ UNCHANGED lfsTodo
-             ELSE IF HasLfs THEN pc' = "lfs" /\ lfsTodo' = r /\ UNCHANGED <<idx, cleanDone>>
-             ELSE pc' = "write" /\ UNCHANGED <<idx, cleanDone, lfsTodo>>
-     ELSE OnError /\ UNCHANGED <<recs, lfsTodo, lfsBad>>
-  /\ Log([a |-> "Decode", c |-> cyc, seg |-> idx, ok |-> ok])
-  /\ UNCHANGED <<store, cyc, loaded, ckpt, persist, sink>>
+\* r = "ok" | "err" (the download request fails) | "trunc" (the body is cut short in the middle)
+Decode(r) ==
+  /\ pc = "decode" /\ Bump(r = "ok")
+  /\ LET good == r = "ok" \/ (r = "trunc" /\ DevTruncAccepted)
+         got == IF r = "trunc" THEN {Min(SegList[idx].offs)} ELSE SegList[idx].offs
+         keep == {o \in got : o > loaded}
+     IN IF good
+        THEN /\ recs' = keep /\ lfsBad' = FALSE
+             /\ IF keep = {} THEN NextSeg /\ UNCHANGED lfsTodo
+                ELSE IF HasLfs THEN pc' = "lfs" /\ lfsTodo' = keep /\ UNCHANGED <<idx, cleanDone>>
+                ELSE pc' = "write" /\ UNCHANGED <<idx, cleanDone, lfsTodo>>
+        ELSE OnError /\ UNCHANGED <<recs, lfsTodo, lfsBad>>
+  /\ Log([a |-> "Decode", c |-> cyc, seg |-> idx, ok |-> (r = "ok"), kind |-> r])
+  /\ UNCHANGED <<store, cyc, loaded, lsv, stv, cached>>
 
 Lfs(ok) ==
   /\ pc = "lfs" /\ lfsTodo # {} /\ Bump(ok)
@@ -75,36 +128,42 @@ Lfs(ok) ==
         ELSE IF recs' = {} THEN NextSeg
         ELSE pc' = "write" /\ UNCHANGED <<idx, cleanDone>>
      /\ Log([a |-> "Lfs", c |-> cyc, seg |-> idx, off |-> o, ok |-> ok])
-  /\ UNCHANGED <<store, cyc, loaded, ckpt, persist, sink>>
+  /\ UNCHANGED <<store, cyc, loaded, lsv, stv, cached>>
 
 Write(ok) ==
   /\ pc = "write" /\ Bump(ok)
-  /\ IF ok THEN sink' = sink \cup recs /\ pc' = "commit" /\ UNCHANGED <<idx, cleanDone>>
+  /\ IF ok THEN sink' = [sink EXCEPT ![lease] = @ \cup recs] /\ pc' = "commit" /\ UNCHANGED <<idx, cleanDone>>
            ELSE OnError /\ UNCHANGED sink
   /\ Log([a |-> "Write", c |-> cyc, seg |-> idx, ok |-> ok])
-  /\ UNCHANGED <<store, cyc, loaded, recs, lfsTodo, lfsBad, ckpt, persist>>
+  /\ UNCHANGED <<store, cyc, loopv, lsv, ckpt, persist, cached>>
 
 \* a failed commit is harmless (records were written; the checkpoint stays): the loop goes on with the next segment
 Commit(ok) ==
   /\ pc = "commit" /\ Bump(ok)
-  /\ ckpt' = IF ok THEN Max(recs) ELSE ckpt
-  /\ persist' = IF ok /\ store = "etcd" THEN Max(recs) ELSE persist
+  /\ ckpt' = IF ok THEN [ckpt EXCEPT ![lease] = Max(recs)] ELSE ckpt
+  /\ persist' = IF ok /\ store = "etcd" THEN [persist EXCEPT ![lease] = Max(recs)] ELSE persist
+  /\ cached' = IF ok /\ DevStaleCache THEN Max(recs) ELSE cached
   /\ NextSeg
   /\ Log([a |-> "Commit", c |-> cyc, seg |-> idx, ok |-> ok])
-  /\ UNCHANGED <<store, cyc, loaded, recs, lfsTodo, lfsBad, sink>>
+  /\ UNCHANGED <<store, cyc, loopv, lsv, sink>>
 
-Next == \E ok \in BOOLEAN : List(ok) \/ Load(ok) \/ Decode(ok) \/ Lfs(ok) \/ Write(ok) \/ Commit(ok)
+Next == \/ \E ok \in BOOLEAN : List(ok) \/ Claim(ok) \/ Load(ok) \/ Lfs(ok) \/ Write(ok) \/ Commit(ok)
+        \/ \E r \in {"ok", "err", "trunc"} : Decode(r)
+        \/ Lose \/ LoadCached
 Spec == Init /\ [][Next]_vars
 
-P == INSTANCE ProcessorProps WITH all <- AllOffsets, sink <- sink, ckpt <- ckpt, cleanDone <- cleanDone
+P == INSTANCE ProcessorProps WITH all <- [p \in Parts |-> AllOf(p)], sink <- sink, ckpt <- ckpt, cleanDone <- cleanDone
 C33_CheckpointSafe == P!C33_CheckpointSafe
 C33_CleanCycleDelivers == P!C33_CleanCycleDelivers
 \* internal facts (conformance level)
-TypeOK == /\ pc \in {"idle", "load", "decode", "lfs", "write", "commit"} /\ sink \subseteq AllOffsets
-          /\ ckpt \in {-1} \cup AllOffsets /\ (store = "noop" => persist = -1) /\ (store = "etcd" => persist = ckpt)
+TypeOK == /\ pc \in {"idle", "claim", "load", "decode", "lfs", "write", "commit"}
+          /\ \A p \in Parts : sink[p] \subseteq AllOf(p) /\ ckpt[p] \in {-1} \cup AllOf(p)
+          /\ (store = "noop" => persist = [p \in Parts |-> -1]) /\ (store = "etcd" => persist = ckpt)
+          /\ (pc \notin {"idle", "claim"} => lease # -1 /\ SegList[idx].p = lease)
 Terminal == pc = "idle" /\ cyc = MaxCycles
 
-View == <<store, cyc, pc, idx, loaded, recs, lfsTodo, lfsBad, ckpt, persist, sink, nf, cycFaults, cleanDone>>
+View == <<store, cyc, pc, idx, loaded, recs, lfsTodo, lfsBad, lease, claimCyc, claimTodo, ckpt, persist, sink, cached,
+          nf, cycFaults, cleanDone>>
 EmitSched == PrintT(<<"SCHED", ToJson([store |-> store, steps |-> hist])>>)
 \* exhaustive enumeration of complete behaviours (cfg without VIEW): print the history of every terminal state
 EmitFinal == Terminal => PrintT(<<"SCHED", ToJson([store |-> store, steps |-> hist])>>)
